@@ -449,7 +449,32 @@ impl BsUnit {
             .binary_search_by_key(&pc, |line| line.address)
             .unwrap_or_else(|p| p.saturating_sub(1));
 
-        self.find_place_by_idx(pos)
+        self.find_place_by_idx(self.prefer_non_terminal_row(pos))
+    }
+
+    /// Rows are sorted by address only, and the row that terminates one sequence
+    /// (`end_sequence`, the first byte after that sequence) has the same address
+    /// as the first row of a sequence that starts right behind it.
+    /// If `pos` points to such a terminating row, return the position of a real row
+    /// with the same address if there is one.
+    fn prefer_non_terminal_row(&self, pos: usize) -> usize {
+        let Some(row) = self.lines.get(pos) else {
+            return pos;
+        };
+        if !row.end_sequence() {
+            return pos;
+        }
+
+        let address = row.address;
+        let mut first = pos;
+        while first > 0 && self.lines[first - 1].address == address {
+            first -= 1;
+        }
+        self.lines[first..]
+            .iter()
+            .take_while(|line| line.address == address)
+            .position(|line| !line.end_sequence())
+            .map_or(pos, |offset| first + offset)
     }
 
     /// Return the nearest line with EB (epilog begin).
